@@ -72,10 +72,6 @@ type tagFilter struct {
 	isEmptyValue bool
 
 	regexpPrefix string
-
-	// value holds the unescaped literal of a pure-literal regexp (rewritten by InfluxRegrep/OpGeminiRegrep),
-	// it is not a regular expression any more
-	valueIsLiteral bool
 }
 
 type TagFilters struct {
@@ -251,7 +247,6 @@ func (tf *tagFilter) Init(name, key, value []byte, isNegative, isRegexp bool) er
 	tf.orSuffixes = tf.orSuffixes[:0]
 	tf.isEmptyMatch = false
 	tf.isAllMatch = false
-	tf.valueIsLiteral = false
 	tf.graphiteReverseSuffix = tf.graphiteReverseSuffix[:0]
 
 	compositeKey := kbPool.Get()
@@ -303,11 +298,12 @@ func (tf *tagFilter) InfluxRegrep() (regexpCacheValue, error) {
 	if tf.isRegexp {
 		prefix, expr = getInfluxRegexpPrefix(tf.value)
 		if len(expr) == 0 {
-			tf.value = append(tf.value[:0], prefix...)
-			tf.valueIsLiteral = true
+			// tf.value stays the expression as written: it is part of the key of the tag filter caches
+			// (marshalTagFilterKey), /a\.b/ and /a.b/ must not share an entry
+			literal := append([]byte{}, prefix...)
 			// select /Ubuntu/ should return match value which contain Ubuntu
 			tf.reSuffixMatch = func(b []byte) bool {
-				return bytes.Contains(b, tf.value)
+				return bytes.Contains(b, literal)
 			}
 			return regexpCacheValue{}, nil
 		}
@@ -360,11 +356,10 @@ func (tf *tagFilter) OpGeminiRegrep() (*regexpCacheValue, error) {
 	if tf.isRegexp {
 		prefix, expr = openGeminiSimplifyRegexp(prefix)
 		if len(expr) == 0 {
-			tf.value = append(tf.value[:0], prefix...)
-			tf.valueIsLiteral = true
+			literal := []byte(prefix)
 			// select /Ubuntu/ should return match value which contain Ubuntu
 			tf.reSuffixMatch = func(b []byte) bool {
-				return bytes.Contains(b, tf.value)
+				return bytes.Contains(b, literal)
 			}
 			return &regexpCacheValue{}, nil
 		} else {
